@@ -274,7 +274,8 @@ struct Common {
     sink_final: Vec<usize>,
     epoch: usize,
     scope: usize,
-    fault: Option<String>,
+    fault: Option<String>, // `FAULT x` / `NOTPERMITTED x`: the run stops here (mirrors the model)
+    poisoned: Vec<usize>,  // rewriter variables whose last write failed
     oracle: Vec<String>,
     tid: usize,
 }
@@ -312,15 +313,24 @@ fn mk_ctx(run: *mut CRun, hid: usize, idx: usize) -> *mut c_void {
     p as *mut c_void
 }
 
-/// Run `f` and report whether it set LAST_ERROR on this thread (the previous value is restored if not).
+static TAKES: std::sync::atomic::AtomicUsize = std::sync::atomic::AtomicUsize::new(0);
+
+/// Run `f` and report whether it set LAST_ERROR on this thread, without disturbing the slot: the
+/// slot was set by `f` iff it is `Some` afterwards and either was `None` before, or holds a different
+/// allocation (errors.rs:20 allocates the new message before the old one is dropped), or a
+/// `take_last_error` happened meanwhile.
 fn with_err_probe<T>(f: impl FnOnce() -> T) -> (T, Option<String>) {
-    let saved = lolhtml::errors::LAST_ERROR.with(|e| e.borrow_mut().take());
+    use std::sync::atomic::Ordering::SeqCst;
+    let before = lolhtml::errors::LAST_ERROR.with(|e| e.borrow().as_ref().map(|s| s.as_ptr() as usize));
+    let takes = TAKES.load(SeqCst);
     let r = f();
-    let now = lolhtml::errors::LAST_ERROR.with(|e| e.borrow().as_ref().map(|s| s.to_string()));
-    if now.is_none() {
-        lolhtml::errors::LAST_ERROR.with(|e| *e.borrow_mut() = saved);
-    }
-    (r, now)
+    let after = lolhtml::errors::LAST_ERROR.with(|e| e.borrow().as_ref().map(|s| (s.as_ptr() as usize, s.to_string())));
+    let set = match (before, after) {
+        (_, None) => None,
+        (None, Some((_, m))) => Some(m),
+        (Some(b), Some((a, m))) => (a != b || TAKES.load(SeqCst) != takes).then_some(m),
+    };
+    (r, set)
 }
 
 unsafe extern "C" fn c_sink(chunk: *const c_char, len: usize, ud: *mut c_void) {
@@ -436,7 +446,7 @@ unsafe fn c_fail_check(run: *mut CRun, failed: bool, set: &Option<String>, what:
     if failed && set.is_none() {
         (*run).c.oracle.push(format!("C17:no-last-error {what} returned a failure value without setting LAST_ERROR"));
     }
-    if let Some(m) = set {
+    if let (Some(m), true) = (set, failed) {
         (*run).c.log.last_mut().unwrap().val.push_str(&format!("!{m}"));
     }
 }
@@ -615,7 +625,7 @@ unsafe fn c_unit_op(run: *mut CRun, unit: Unit, op: &COp) {
             r.c.log.push(obs("v", ""));
         }
         COp::Streaming { f, h } => {
-            let mut st;
+            let mut st: std::mem::ManuallyDrop<CStreamingHandler>;
             let hp: *mut CStreamingHandler = match h {
                 SArg::Null => std::ptr::null_mut(),
                 SArg::Mk { reserved_null, has_write_all, has_drop, script } => {
@@ -628,13 +638,14 @@ unsafe fn c_unit_op(run: *mut CRun, unit: Unit, op: &COp) {
                         usize::MAX
                     };
                     let ud = if copied { mk_ctx(run, *script, idx) } else { std::ptr::null_mut() };
-                    st = CStreamingHandler {
+                    // ManuallyDrop: the callee copies the struct bitwise; our copy must not run `Drop`
+                    st = std::mem::ManuallyDrop::new(CStreamingHandler {
                         user_data: ud,
                         write_all_callback: if *has_write_all { Some(c_write_all) } else { None },
                         drop_callback: if *has_drop { Some(c_drop) } else { None },
                         reserved: if *reserved_null { std::ptr::null_mut() } else { 1usize as *mut c_void },
-                    };
-                    &mut st
+                    });
+                    &mut *st
                 }
             };
             let (n, set) = with_err_probe(|| match (unit, *f) {
@@ -655,10 +666,6 @@ unsafe fn c_unit_op(run: *mut CRun, unit: Unit, op: &COp) {
                 (Unit::EndTag(c), 13) => lol_html_end_tag_streaming_replace(c, hp),
                 _ => panic!("bad-case streaming"),
             });
-            // the struct was copied by value: forget ours without running its Drop
-            if let SArg::Mk { .. } = h {
-                std::mem::forget(unsafe { std::ptr::read(hp) });
-            }
             r.c.log.push(code(n));
             c_fail_check(run, n != 0, &set, "streaming registration");
         }
@@ -679,7 +686,7 @@ unsafe fn c_unit_op(run: *mut CRun, unit: Unit, op: &COp) {
                 let cur = (&*e).attributes().as_ptr_range();
                 let (cs, ce) = (cur.start as usize, cur.end as usize);
                 let dangling = !(it_words[0] >= cs && it_words[0] <= ce && it_words[1] == ce);
-                r.c.fault = Some("use-after-free".into());
+                r.c.fault = Some("FAULT use-after-free".into());
                 if dangling {
                     r.c.oracle.push(format!(
                         "C17:iter-invalidated attribute iterator [{:#x},{:#x}) no longer matches the attribute vector [{:#x},{:#x}) after set/remove_attribute; lol_html.h permits the call",
@@ -706,8 +713,12 @@ unsafe fn c_unit_op(run: *mut CRun, unit: Unit, op: &COp) {
         COp::AttrStrGet { dst, it, f } => {
             let Some(CVal::Iter { last, epoch, .. }) = r.vars.get(it) else { panic!("bad-case ag var") };
             let (a, epoch) = (*last, *epoch);
+            if a.is_null() {
+                r.c.fault = Some("NOTPERMITTED attribute pointer is NULL".into());
+                return;
+            }
             if epoch != r.c.epoch {
-                r.c.fault = Some("use-after-free".into());
+                r.c.fault = Some("FAULT use-after-free".into());
                 r.c.oracle.push("C17:iter-invalidated attribute pointer used after set/remove_attribute; lol_html.h permits the call".into());
                 return;
             }
@@ -737,6 +748,7 @@ unsafe fn c_str_free(r: &mut CRun, v: usize) {
 
 unsafe fn c_take_last_error(r: &mut CRun, dst: usize) {
     let s = raw_of(lolhtml::errors::lol_html_take_last_error());
+    TAKES.fetch_add(1, std::sync::atomic::Ordering::SeqCst);
     r.put_str(dst, s);
 }
 
@@ -831,6 +843,10 @@ unsafe fn c_top(run: *mut CRun, tid: usize, op: &TopOp) {
         TopOp::Write { r: rv, chunk } => {
             let Some(CVal::Rewriter(rp)) = r.vars.get(rv) else { panic!("bad-case WR") };
             let rp = *rp;
+            if r.c.poisoned.contains(rv) {
+                r.c.fault = Some("NOTPERMITTED rewriter used after a failed write".into());
+                return;
+            }
             let (d, l) = p!(chunk);
             let (n, set) = with_err_probe(|| lol_html_rewriter_write(rp, d, l));
             let r = &mut *run;
@@ -838,11 +854,18 @@ unsafe fn c_top(run: *mut CRun, tid: usize, op: &TopOp) {
                 return;
             }
             r.c.log.push(code(n));
+            if n != 0 {
+                r.c.poisoned.push(*rv);
+            }
             c_fail_check(run, n != 0, &set, "rewriter_write");
         }
         TopOp::End { r: rv } => {
             let Some(CVal::Rewriter(rp)) = r.vars.get(rv) else { panic!("bad-case EN") };
             let rp = *rp;
+            if r.c.poisoned.contains(rv) {
+                r.c.fault = Some("NOTPERMITTED rewriter used after a failed write".into());
+                return;
+            }
             let (n, set) = with_err_probe(|| lol_html_rewriter_end(rp));
             let r = &mut *run;
             if r.c.fault.is_some() {
@@ -889,7 +912,7 @@ enum RVal {
     Null,
     Builder(Vec<RReg>),
     Selector(Selector),
-    Rewriter(Option<RustRewriter>),
+    Rewriter(Option<Box<RustRewriter>>), // boxed: `vars` may rehash while `write` runs
     Str,
     Iter { pos: usize, len: usize, epoch: usize },
 }
@@ -1212,7 +1235,7 @@ unsafe fn r_unit_op(run: *mut RRun, unit: Unit, op: &COp) {
         COp::IterNext { it } => {
             let Some(RVal::Iter { pos, len, epoch }) = r.vars.get_mut(it) else { panic!("bad-case nx var") };
             if *epoch != r.c.epoch {
-                r.c.fault = Some("use-after-free".into());
+                r.c.fault = Some("FAULT use-after-free".into());
                 return;
             }
             if *pos < *len {
@@ -1229,8 +1252,12 @@ unsafe fn r_unit_op(run: *mut RRun, unit: Unit, op: &COp) {
         COp::AttrStrGet { dst, it, f } => {
             let Unit::Element(e) = unit else { panic!("bad-case ag") };
             let Some(RVal::Iter { pos, epoch, .. }) = r.vars.get(it) else { panic!("bad-case ag var") };
+            if *pos == 0 {
+                r.c.fault = Some("NOTPERMITTED attribute pointer is NULL".into());
+                return;
+            }
             if *epoch != r.c.epoch {
-                r.c.fault = Some("use-after-free".into());
+                r.c.fault = Some("FAULT use-after-free".into());
                 return;
             }
             let a = &(*e).attributes()[*pos - 1];
@@ -1293,6 +1320,9 @@ unsafe fn r_top(run: *mut RRun, tid: usize, op: &TopOp) {
         TopOp::Build { dst, b, enc, prealloc, max, graceful, strict, esi } => {
             let Some(RVal::Builder(regs)) = r.vars.get(b) else { panic!("bad-case BU") };
             let regs = regs.clone();
+            r.c.sinks.push(vec![]);
+            r.c.sink_final.push(0);
+            let idx = r.c.sinks.len() - 1;
             let encoding = match encoding_rs::Encoding::for_label_no_replacement(enc) {
                 None => {
                     r.fail("p0", "Unknown character encoding has been provided.".into());
@@ -1352,9 +1382,6 @@ unsafe fn r_top(run: *mut RRun, tid: usize, op: &TopOp) {
                     settings = settings.append_document_content_handler(h);
                 }
             }
-            r.c.sinks.push(vec![]);
-            r.c.sink_final.push(0);
-            let idx = r.c.sinks.len() - 1;
             let sink: Box<dyn FnMut(&[u8])> = Box::new(move |c: &[u8]| unsafe {
                 let r = &mut *(runu as *mut RRun);
                 if c.is_empty() {
@@ -1367,7 +1394,7 @@ unsafe fn r_top(run: *mut RRun, tid: usize, op: &TopOp) {
                 Ok(rw) => {
                     let r = &mut *run;
                     r.c.log.push(obs("p1", ""));
-                    r.bind(*dst, RVal::Rewriter(Some(rw)), "rewriter");
+                    r.bind(*dst, RVal::Rewriter(Some(Box::new(rw))), "rewriter");
                 }
                 Err(e) => {
                     let m = e.downcast_ref::<String>().cloned().or_else(|| e.downcast_ref::<&str>().map(|s| s.to_string())).unwrap_or_default();
@@ -1378,8 +1405,12 @@ unsafe fn r_top(run: *mut RRun, tid: usize, op: &TopOp) {
             }
         }
         TopOp::Write { r: rv, chunk } => {
+            if r.c.poisoned.contains(rv) {
+                r.c.fault = Some("NOTPERMITTED rewriter used after a failed write".into());
+                return;
+            }
             let Some(RVal::Rewriter(Some(rw))) = r.vars.get_mut(rv) else { panic!("bad-case WR") };
-            let rw: *mut RustRewriter = rw;
+            let rw: *mut RustRewriter = &mut **rw;
             let res = (*rw).write(chunk);
             let r = &mut *run;
             if r.c.fault.is_some() {
@@ -1387,10 +1418,17 @@ unsafe fn r_top(run: *mut RRun, tid: usize, op: &TopOp) {
             }
             match res {
                 Ok(()) => r.c.log.push(code(0)),
-                Err(e) => r.fail("-1", e.to_string()),
+                Err(e) => {
+                    r.c.poisoned.push(*rv);
+                    r.fail("-1", e.to_string())
+                }
             }
         }
         TopOp::End { r: rv } => {
+            if r.c.poisoned.contains(rv) {
+                r.c.fault = Some("NOTPERMITTED rewriter used after a failed write".into());
+                return;
+            }
             let Some(RVal::Rewriter(slot)) = r.vars.get_mut(rv) else { panic!("bad-case EN") };
             let rw = slot.take().expect("bad-case EN twice");
             let res = rw.end();
@@ -1532,14 +1570,14 @@ pub fn run(line: &str) -> String {
     let rc = &rrun.c;
     let mut oracle = c.oracle.clone();
     let line_c = if let Some(f) = &c.fault {
-        format!("FAULT {f}")
+        f.clone()
     } else {
         let mut toks: Vec<String> = c.log.iter().map(|o| o.tok.clone()).collect();
         toks.push(summary(c, &bits, crun.live.len()));
         toks.join(" ")
     };
     let line_r = if let Some(f) = &rc.fault {
-        format!("FAULT {f}")
+        f.clone()
     } else {
         let mut toks: Vec<String> = rc.log.iter().map(|o| o.tok.clone()).collect();
         toks.push(summary(rc, &rbits, rleaks));
